@@ -53,3 +53,19 @@ let install_listing register get geti getb =
     let beh = scripted (nat_of_int l) (nat_of_int style) (nat_of_int k) in
     let ((acc, reqs), ended) = client_list (nat_of_int (l + 2)) dir beh (nat_of_int b) O [] O in
     Printf.sprintf "names=%s. reqs=%x ok=%s" (String.concat "," (List.map str_of_bytes acc)) (int_of_nat reqs) (bool_s ended))
+
+let install_lin register get =
+  register "lin" (fun kv ->
+    let f0 = bytes_of_hex (get kv "f0") in
+    let hx s = int_of_string ("0x" ^ s) in
+    let h = List.map (fun t -> match split ':' t with
+      | [id; call; ret; "R"; off; len; got] ->
+        { o_id = nat_of_int (hx id); o_call = nat_of_int (hx call); o_ret = nat_of_int (hx ret);
+          o_kind = ORead (nat_of_int (hx off), nat_of_int (hx len), bytes_of_hex got) }
+      | [id; call; ret; "W"; off; data] ->
+        { o_id = nat_of_int (hx id); o_call = nat_of_int (hx call); o_ret = nat_of_int (hx ret);
+          o_kind = OWrite (nat_of_int (hx off), bytes_of_hex data) }
+      | [id; call; ret; "S"; sz] ->
+        { o_id = nat_of_int (hx id); o_call = nat_of_int (hx call); o_ret = nat_of_int (hx ret); o_kind = OSize (nat_of_int (hx sz)) }
+      | _ -> failwith "op") (split ',' (get kv "h")) in
+    "lin=" ^ bool_s (lin_check f0 h))
